@@ -144,6 +144,21 @@ func (oe *outEval) fieldValue(base ssa.Value, field int, fr *oframe, depth int) 
 		}
 	case *ssa.MakeInterface:
 		return oe.fieldValue(x.X, field, fr, depth+1)
+	case *ssa.Global:
+		// a package-level struct: the constant its initialiser stores in the field (and nothing else writes)
+		st := oe.s.singleStoreWhere(func(addr ssa.Value) bool {
+			fa, ok := addr.(*ssa.FieldAddr)
+			return ok && fa.X == ssa.Value(x) && fa.Field == field
+		})
+		if st == nil || x.Pkg == nil || st.Parent() != x.Pkg.Func("init") {
+			return nil, nil, nil, false
+		}
+		if oe.s.singleStoreWhere(func(addr ssa.Value) bool { return addr == ssa.Value(x) }) != nil {
+			return nil, nil, nil, false
+		}
+		if _, isConst := st.Val.(*ssa.Const); isConst {
+			return st.Val, st.Block(), fr, true
+		}
 	}
 	return nil, nil, nil, false
 }
